@@ -1,6 +1,7 @@
 """Observation layer: step-wise driver, process wrappers, digests, rejection classification."""
 import contextlib
 import hashlib
+import sys
 import traceback
 
 import numpy as np
@@ -192,22 +193,24 @@ def instrument(trace, capture=()):
 
 
 @contextlib.contextmanager
-def init_guard(limit=400):
-    """Detect a non-terminating profile-deepening loop without a timeout (count-based)."""
-    orig = _Soil.fill_nan
+def init_guard(limit=3_000_000):
+    """Detect non-termination of model initialisation (profile-deepening loop) without a timeout:
+    a deterministic budget of Python-level function calls (a normal initialisation makes ~3e4)."""
     state = {"n": 0}
 
-    def guarded(self):
+    def tracer(frame, event, arg):
         state["n"] += 1
         if state["n"] > limit:
-            raise NoProgress("Soil.fill_nan called %d times during initialisation" % state["n"])
-        return orig(self)
+            sys.settrace(None)
+            raise NoProgress("model initialisation exceeded %d function calls (a normal one needs ~3e4): no progress" % limit)
+        return None
 
-    _Soil.fill_nan = guarded
+    old = sys.gettrace()
+    sys.settrace(tracer)
     try:
         yield
     finally:
-        _Soil.fill_nan = orig
+        sys.settrace(old)
 
 
 def initialize(model):
@@ -351,5 +354,6 @@ def run_plain(cfg, weather_df=None):
     """Uninterrupted run to termination; returns the model (exceptions propagate)."""
     m = make_model(cfg, weather_df)
     with init_guard():
-        m.run_model(till_termination=True)
+        m._initialize()
+    m.run_model(till_termination=True, initialize_model=False)
     return m
